@@ -48,6 +48,10 @@ class ContinueSig(Exception):
   pass
 
 
+class TailAbstracted(Exception):
+  """Raised after a call named in contract.stop_after: the rest of the function body is abstracted."""
+
+
 class Unsupported(Exception):
   """Construct outside the front-end subset: the function is out of reach (undecided, never a violation)."""
 
@@ -518,6 +522,8 @@ class Engine:
     v = self.ev(node.operand, st)
     if isinstance(node.op, ast.Not):
       return self.not_(self.truthy(st, v))
+    if isinstance(v, Opaque):
+      return Opaque("-" + v.why)
     x = self.need_int(st, v, node)
     if isinstance(node.op, ast.USub):
       return -x
@@ -1074,6 +1080,10 @@ class Engine:
       pnames = [a.arg for a in f.node.args.args if a.arg != "self"]
       argv = tuple(env.get(n) for n in pnames)
       self.run_ghost(st, hooks, {"args": argv, "result": result}, f"{self.cur.qual}/at-call:{c.qual}@L{line}", line)
+    if self.cur is not None and len(st.frames) == 1 and c.qual.split(".")[-1] in getattr(self.cur, "stop_after", ()):
+      self.abstracted.add(f"body of {self.cur.qual} after the call of {c.qual} at L{line} (floating-point tail): assumed "
+                          "to return normally")
+      raise TailAbstracted()
     return result
 
   def run_ghost(self, st, stmts, extra, label, line):
@@ -1803,6 +1813,9 @@ class Engine:
       if n in lc.get("keep", ()):
         continue
       decl = lc["types"].get(n)
+      if decl == "opaque":
+        env[n] = Opaque(f"{n} (declared opaque at the loop cut)")
+        continue
       if n in env:
         v = env[n]
         if isinstance(v, Ptr):
@@ -2116,6 +2129,8 @@ class Engine:
         self.exec_block(body, st)
       except ReturnSig as r:
         result = r.value
+      except TailAbstracted:
+        result = Opaque("abstracted tail")
       except (BreakSig, ContinueSig):
         raise Unsupported("break/continue outside loop")
     except Raised as r:
